@@ -155,7 +155,7 @@ pub fn c01_substr_u64() {
     substr_bad_numbers(0);
 }
 
-//@ harness: c01_substr_u64_len tier=thorough timeout=1800 kind=main mem=16 optional=1
+//@ harness: c01_substr_u64_len tier=thorough timeout=900 kind=main mem=16 optional=1
 //@ encodes: op::string::substr (length given as any u64, incl. > i64::MAX)
 //@ bound: string of 1 character of symbolic width; start any i64, length any u64: Ok or Err, never a panic
 //@ cuts: strcount
